@@ -1,7 +1,7 @@
 META = dict(
     engine='seqx',
     technique='exhaustive enumeration of three finite input boxes (strings, argv edits, option arrangements) on the real argv.c / cmd_line.c against reference functions, each case in a crash-isolating worker',
-    level_text='Every string over {a,b,delimiter} up to length 6 (quick) / 10 (thorough) plus tokens around the 128-byte buffer, every argv of <= 4 elements with every delete/insert/insert_element/append/prepend/append_unique/copy/join_range argument combination, and every arrangement of <= 4 (quick) / 6 (thorough) tokens from a 15-token alphabet over three declared options (0/1/2 parameters, short / single-dash / long names, combined shorts, "--", unknown options and tokens) x ignore_unknown are executed on the real code and compared with reference functions; heap blocks of argv.c are exact-size with red zones.',
+    level_text='Every string over {a,b,delimiter} up to length 6 (quick) / 10 (thorough) plus tokens around the 128-byte buffer, every argv of <= 4 elements with every delete/insert/insert_element/append/prepend/append_unique/copy/join_range argument combination, and every arrangement of <= 4 (quick) / 6 (thorough) tokens from a 17-token alphabet over three declared options (0/1/2 parameters, short / single-dash / long names, combined shorts, "--", unknown options and tokens) x ignore_unknown are executed on the real code and compared with reference functions; heap blocks of argv.c are exact-size with red zones.',
     level_note='Inputs outside the boxes (longer strings, more tokens, other option tables, typed option destinations / MCA-bound options) are not covered; argv.c is compiled into the harness TU with malloc/realloc/free/strdup routed to a red-zone allocator, cmd_line.c is the library build.',
 )
 RULE = ("full-box enumeration; states = distinct outcomes (result arrays / return codes / reported options+tail), transitions = executions = cases run; "
